@@ -8,7 +8,7 @@
    no_compound (known finding 1 otherwise): in the packages that can be selected no active any-of /
    exactly-one-of / at-most-one-of group has a group as an alternative. *)
 From LC Require Import Lib.Bytes Model.Resolve Model.Profile Cases.C05
-  Proofs.ResolveP Proofs.ClosureP Proofs.StageP Proofs.ProfileP Proofs.OrderP Proofs.TerminateP Proofs.C05P Proofs.C05W.
+  Proofs.ResolveP Proofs.ClosureP Proofs.StageP Proofs.ProfileP Proofs.OrderP Proofs.TerminateP Proofs.C05P Proofs.C05W Proofs.C05T.
 Import C05.
 
 (* the per-case statement evaluated on implementation output by the correspondence check *)
@@ -110,3 +110,44 @@ Print Assumptions C05_system_set.
 Theorem C05_refuted_1 : exists c, wf c = true /\ kf c = 1%N /\ spec c (model c) = false.
 Proof. exists witness_kf1. destruct refuted_1_proof as (H1 & H2 & H3 & _). auto. Qed.
 Print Assumptions C05_refuted_1.
+
+(* ---- round 5: the trees of a case are the PMS readings of the dependency files, and empty groups ----
+   wf c contains texts_ok c: for every dependency file that is a PMS dependency string the token sequence
+   of its tree equals the (classified) token sequence of the text on disk (tie).  The grammar is uniquely
+   readable: two trees tied to one text have the same skeleton -- the same groups of the same kinds and
+   flags, nested the same way, with the same number of atoms (and blocker marks) in every group.  In
+   particular which items a USE-conditional group governs is fixed by the text: its parenthesised body. *)
+Theorem C05_reading_unique : forall text l1 l2,
+  tie text l1 = true -> tie text l2 = true -> map skel l1 = map skel l2.
+Proof. exact tie_unique. Qed.
+Print Assumptions C05_reading_unique.
+
+(* an empty all-of / USE-conditional / at-most-one-of group contributes nothing (PMS 8.2): for every
+   database, request and candidate selection, validity (Roots, Closed, Justified, Unblocked) and the full
+   closure are the same with and without such groups, at any depth, in any position -- hence the verdict
+   of the specification on any observed result.  (An empty any-of / exactly-one-of group is not inert:
+   the property asks for at least one satisfied alternative and there is none.) *)
+Theorem C05_empty_groups_contribute_nothing : forall vdb bdeps rq X,
+  valid (strip_vdb vdb) bdeps rq X = valid vdb bdeps rq X /\
+  maxclosure (strip_vdb vdb) bdeps rq = maxclosure vdb bdeps rq.
+Proof. intros. split; [apply valid_strip|apply maxclosure_strip]. Qed.
+Print Assumptions C05_empty_groups_contribute_nothing.
+Theorem C05_empty_groups_same_verdict : forall vdb bdeps rq o,
+  spec_stage (strip_vdb vdb) bdeps rq o = spec_stage vdb bdeps rq o.
+Proof. exact spec_stage_strip. Qed.
+Print Assumptions C05_empty_groups_same_verdict.
+
+(* inside the hypotheses of C05_holds: "liba ssl? ( ) libb" with ssl off -- the tree is tied to the text,
+   libb and its own dependency libc are selected; the reading that lets the empty conditional swallow libb
+   is not tied to that text, and the stage set without libb and libc is refused by the specification *)
+Theorem C05_empty_group_example :
+  wf (witness_empty no_obs) = true /\ kf (witness_empty no_obs) = 0%N /\
+  o_stage (model (witness_empty no_obs))
+    = ROk [bs "app-misc/top-1"; bs "sys-libs/liba-1"; bs "sys-libs/libb-2"; bs "sys-libs/libc-3"] /\
+  spec (witness_empty no_obs)
+       (MkObs (ROk [bs "app-misc/top"]) (ROk [bs "app-misc/top-1"; bs "sys-libs/liba-1"]) (ROk [bs "app-misc/top"])
+              (ROk [bs "app-misc/top-1"; bs "sys-libs/liba-1"]) (ROk [bs "app-misc/top-1"; bs "sys-libs/liba-1"])) = false.
+Proof.
+  vm_compute. repeat split; reflexivity.
+Qed.
+Print Assumptions C05_empty_group_example.
